@@ -135,7 +135,8 @@ Lemma call_orders :
   calls_DeleteCredential = [b "cfg.rwLock.Lock"; b "cfg.rwLock.Unlock"; b "cfg.saveFile"] /\
   calls_SetCredentialsStore = [b "cfg.rwLock.Lock"; b "cfg.rwLock.Unlock"; b "cfg.saveFile"] /\
   calls_GetCredential = [b "cfg.rwLock.RLock"; b "cfg.rwLock.RUnlock"; b "json.Unmarshal"] /\
-  calls_IsAuthConfigured = [b "cfg.rwLock.RLock"; b "cfg.rwLock.RUnlock"].
+  calls_IsAuthConfigured = [b "cfg.rwLock.RLock"; b "cfg.rwLock.RUnlock"] /\
+  calls_getHelperSuffix = [b "ds.config.GetCredentialHelper"; b "ds.config.CredentialsStore"].
 Proof. repeat split; reflexivity. Qed.
 
 Lemma to_hostname_spec addr :
